@@ -70,6 +70,20 @@ def build(tree, mode):
         if isinstance(tree, dict):
             return n0struct.n0dict(txt) if tree else n0struct.n0dict()
         return n0struct.n0list(txt) if tree else n0struct.n0list()
+    if mode == "missing":
+        # raw data whose nested dictionaries answer absent keys themselves (collections.defaultdict): the same tree as
+        # far as its content goes - a key that was never stored is absent, whatever dict[key] would make up for it
+        import collections
+
+        def dd(v, top=False):
+            if isinstance(v, dict):
+                items = {k: dd(x) for k, x in v.items()}
+                return items if top else collections.defaultdict(list, items)
+            if isinstance(v, list):
+                return [dd(x) for x in v]
+            return v
+        t = dd(copy.deepcopy(tree), top=True)
+        return n0struct.n0dict(t) if isinstance(t, dict) else n0struct.n0list(t)
     raise ValueError(mode)
 
 
@@ -158,7 +172,7 @@ def contains_plain_dict_below_list_root(tree):
 SOUP = ["a", "b", "k1", "id", "f", "/", "[", "]", "*", "..", "0", "1", "2", "-", "+", "last()", "new()",
         "text()", "=", "!=", "~", '"', "'", " ", "x", "B", "[*]", "[0]", "[-1]", "[last()]", "[1]", "/a", "/b",
         "[id=1]", "[k1~x]", "[f!=2]", "/..", "[text()=x]", "?",
-        "[id='']", '[k1=""]', "[f=]", "[text()!='']", "[a~]", "[id=true()]", "[k1=false()]"]
+        "[id='']", '[k1=""]', "[f=]", "[text()!='']", "[a~]", "[id=true()]", "[k1=false()]", "[]", "/[]"]
 
 
 def gen_soup(rng, maxn=8):
